@@ -93,6 +93,14 @@ def sccs(p, fids):
     for v in sorted(fids):
         if v not in index:
             strong(v)
+    for comp in out:
+        lam = [w for w in comp if getattr(p.funcs.get(w), 'enclosing', None) is not None]
+        if lam:
+            # the recursion passes through a lambda: the rules about recursive functions (polls, frames, returned values) read
+            # each function's own body and CFG, in which the call inside the lambda does not appear
+            raise AnalysisBroken('the recursion of %s goes through a lambda written in it (%s); the rules read recursive calls in the '
+                                 'function\'s own body only' % (sorted(short(p.funcs[w].name) for w in comp if w not in lam),
+                                                                  p.funcs[lam[0]].loc()))
     return out
 
 
